@@ -202,6 +202,13 @@ def check(ctx):
                 os_ = origins(start, src) if src else set()
                 if not os_ or not all(o[0] == "call" and o[1] in claim_calls for o in os_):
                     okw = False
+            # ... and on every path: a conditional write would leave the previous run's value visible
+            if okw:
+                wpath = lib.path_to_return_avoiding(start, [lib.call_target(start, cc) for cc in claim_calls], [b for (b, i, rv) in ws])
+                ctx.check(wpath is None, "C03.b", "%s::start:writes-%s-on-every-claimed-path" % (tname, f), "%s:%d" % (start.file, start.line),
+                          "every path after the claim writes %s" % f,
+                          "a path of start() claims an entry but does not overwrite %s: the reader sees the value of an earlier reaction" % f,
+                          lib.render_path(start, wpath) if wpath else None)
             ctx.check(okw, "C03.b", "%s::start:writes-%s-from-claimed-entry" % (tname, f), "%s:%d" % (start.file, start.line),
                       "accessor %s() returns %s, which start() fills from the claimed pending entry" % (nm, f),
                       "field %s returned by %s() is not written in start() from the claimed pending entry" % (f, nm))
@@ -305,6 +312,11 @@ def check(ctx):
                               "%s queries %s<T>" % (rname, mm.group(1)), "%s queries %s<%s>, not its own T" % (rname, mm.group(1), mm.group(2)))
     ctx.floor("C03.c", n_methods, 10, "reader methods that touch a tracker accessor")
 
+    # ---- C03.g a run postponed by recursion is replayed with its own setup and cleanup (shared with C02.c) ----
+    import c02 as _c02
+    import core as _core3
+    ngg = _core3.adopt(ctx, _c02, lambda o: o["rule"] == "C02.c" and "::replay:" in o["key"], "C03.g")
+    ctx.floor("C03.g", ngg, 5, "shared replay obligations (C02.c)")
     # ---- C03.f the flags are cleared before anything the run queued can run (shared with C04.a / C04.b) ----
     # ('every reader for another kind reports nothing' and 'a manual run sees nothing' for commands queued by a reacting run)
     import c04
